@@ -191,7 +191,7 @@ fn main() {
                     let (cr, cc) = s.cursor_position();
                     if cr >= rows || cc > cols { return Some(("c13-cursor".into(), format!("{:?}", (cr,cc)))); }
                     for r_ in 0..rows { if s.row_wrapped(r_) { let last = s.cell(r_, cols-1).unwrap(); if !last.has_contents() && !last.is_wide_continuation() { return Some(("inv-wrapped-lastcol-empty".into(), String::new())); } } }
-                    for r_ in 0..rows { for c in 0..cols { let cell = s.cell(r_, c).unwrap(); if cell.is_wide() && cell.is_wide_continuation() { return Some(("inv-wide-and-cont".into(), String::new())); } if cell.is_wide() && !cell.has_contents() { return Some(("inv-wide-empty".into(), String::new())); } if cell.contents().len() > 21 { return Some(("inv-len".into(), String::new())); } } }
+                    for r_ in 0..rows { for c in 0..cols { let cell = s.cell(r_, c).unwrap(); if cell.is_wide() && cell.is_wide_continuation() { return Some(("inv-wide-and-cont".into(), String::new())); } if cell.is_wide_continuation() && (cell.fgcolor() != vt100::Color::Default || cell.bgcolor() != vt100::Color::Default || cell.bold() || cell.dim() || cell.italic() || cell.underline() || cell.inverse()) { return Some(("inv-cont-nondefault-attrs".into(), String::new())); } if cell.is_wide() && !cell.has_contents() { return Some(("inv-wide-empty".into(), String::new())); } if cell.contents().len() > 21 { return Some(("inv-len".into(), String::new())); } } }
                     for r_ in 0..rows { for c in 0..cols {
                         let cell = s.cell(r_, c).unwrap();
                         if cell.is_wide() { if c + 1 >= cols { return Some(("c13-wide-lastcol".into(), String::new())); } if !s.cell(r_, c+1).unwrap().is_wide_continuation() { return Some(("c13-wide-nocont".into(), String::new())); } }
